@@ -348,7 +348,7 @@ class Engine(object):
                          msg=model.msg, flags=flags)
             return
         if single:
-            ok, err, scale = common.close(observed, model, rtol=5e-5, afloor=1e-7)
+            ok, err, scale = common.close_single(observed, model)
         else:
             ok, err, scale = common.close(observed, model)
         self.event(what, label, rng.array_digest(np.round(np.asarray(model, dtype=np.complex128), 8)), bool(ok))
@@ -582,7 +582,7 @@ class Engine(object):
         ):
             dbl = self.model_weak(rec, rec.vector, precision=None)
             if not isinstance(dbl, Failure):
-                ok, err, scale = common.close(val, dbl, rtol=5e-5, afloor=1e-7)
+                ok, err, scale = common.close_single(val, dbl)
                 self.event("single_vs_double", label, bool(ok))
                 if not ok:
                     self.violate("single_precision_inaccurate", op=label, err=err, scale=scale, flags=self._flags(rec))
@@ -710,7 +710,15 @@ class Engine(object):
         square = m.shape[0] == m.shape[1]
         amp = kappa if square else kappa * kappa
         rtol = (1e-8 if rec.precision != "single" else 5e-5) + 1e-13 * amp
-        ok, err, scale = common.close(val, model, rtol=rtol, afloor=1e-10)
+        if rec.precision == "single":
+            # entrywise, with the float32 floor of the weak form amplified by the range map
+            try:
+                gain = float(np.max(np.abs(np.linalg.pinv(np.asarray(m, dtype=np.complex128)))))
+            except np.linalg.LinAlgError:
+                gain = 1.0
+            ok, err, scale = common.close_single(val, model, rtol=rtol, afloor=3e-7 * max(1.0, gain) * max(1, m.shape[1]))
+        else:
+            ok, err, scale = common.close(val, model, rtol=rtol, afloor=1e-10)
         self.event("strong_form", label, bool(ok))
         if not ok:
             self.violate("history_value_differs", what="strong_form", op=label, err=err, scale=scale,
